@@ -333,6 +333,63 @@ def r08_9(chk, P, rule='R08.9'):
     return n
 
 
+def r08_11(chk, P):
+    chk.rule('R08.11', 'a time is converted to samples at a link\'s rate only relative to that link: in vorbisfile.c, wherever a value is '
+             'multiplied by the sample rate of a selected link (vi[link].rate, vi+link ... ->rate), the other factor is not the '
+             'caller\'s absolute time (a floating parameter, directly or through plain copies) but a difference from which the '
+             'durations of the earlier links -- a local accumulated over the links -- have been subtracted.  Links may have '
+             'different rates: seconds * rate_of_link_k is a sample position only inside a file whose links all share that rate')
+    n = 0
+    for F in P.functions():
+        if not F.file.endswith('vorbisfile.c'):
+            continue
+        tparams = {p_['id'] for p_ in F.params if p_.get('t') in ('double', 'float')}
+        if not tparams:
+            continue
+        defs = common.single_defs(F)
+        # locals accumulated in a loop (+=) : the running duration
+        acc = set()
+        for e in F.nodes('assign'):
+            nd = F.ex[e]
+            l = F.ex[F.strip_casts(nd['c'][0])]
+            if nd['op'] == '+=' and l['k'] == 'ref' and l['decl'].get('kind') == 'var':
+                acc.add(l['decl']['id'])
+
+        def is_abs_time(e, depth=0):
+            nd = F.ex[F.strip_casts(e)]
+            if nd['k'] == 'ref':
+                if nd['decl'].get('id') in tparams:
+                    return True
+                d = defs.get(nd['decl'].get('id'))
+                if d is not None and depth < 3 and nd['decl'].get('kind') == 'var':
+                    return is_abs_time(d, depth + 1)
+            return False
+
+        def is_link_rate(e):
+            nd = F.ex[F.strip_casts(e)]
+            if nd['k'] != 'member' or nd['field'] != 'rate':
+                return False
+            b = F.ex[F.strip_casts(nd['c'][0])]
+            # vi[link] / *(vi+link) / (vi+link)-> : a subscripted or offset info, i.e. a selected link
+            txt = F.s(F.strip_casts(nd['c'][0]))
+            return b['k'] in ('sub', 'bin', 'un') or '[' in txt or '+' in txt
+        for e in sorted(F.nodes('bin'), key=lambda x: F.ex[x].get('loc') or [0, 0]):
+            nd = F.ex[e]
+            if nd['op'] != '*':
+                continue
+            a, b = nd['c']
+            for rate, other in ((a, b), (b, a)):
+                if not is_link_rate(rate):
+                    continue
+                bad = is_abs_time(other)
+                n += 1
+                chk.ob('R08.11', F.name, f'time-to-samples-is-link-relative@{F.loc(e)}', not bad, F.where(e),
+                       f'`{F.s(e)[:70]}`: the time factor is not the caller\'s absolute time' if not bad else
+                       f'`{F.s(e)[:70]}` multiplies the caller\'s absolute time by the rate of one link: in a chain whose links differ in '
+                       'rate the product is not a position in the stream (the durations of the earlier links must be subtracted first)')
+    return n
+
+
 def run(chk, P):
     E = getattr(P, '_effects', None) or k3.Effects(P)
     P._effects = E
@@ -350,6 +407,8 @@ def run(chk, P):
     chk.floor('R08.9', 1)
     import typestate
     typestate.c08(chk, P)
+    r08_11(chk, P)
+    chk.floor('R08.11', 1)
     # R08.4a: the conversion of a target uses the set-up of the link it selected (shared implementation with C09 R09.4/R09.1)
     from rules import c09
 
